@@ -213,10 +213,18 @@ class MqttRun:
                 self.fake.queue.put_nowait(_Msg(topic, payload))
             else:
                 try:
-                    self.tr._receive(topic, payload.decode())
+                    text = payload.decode()
                 except UnicodeDecodeError as err:
-                    # the documented hook takes text: a client implementation reports the failure through _receive_error
-                    self.tr._receive_error(TransportError(f"undecodable: {err}"))
+                    text = None
+                try:
+                    if text is None:
+                        # the documented hook takes text: a client implementation reports the failure through _receive_error
+                        self.tr._receive_error(TransportError("undecodable payload"))
+                    else:
+                        self.tr._receive(topic, text)
+                except BaseException as err:  # noqa: BLE001 - the receive hook itself failed: the message is lost
+                    self.events.append({"op": "receive_hook_failed", "res": "other:" + type(err).__name__})
+                    return
             self.events.append({"op": "broker_msg", "topic": [cps(lv) for lv in topic.split("/")], "bytes": list(payload)})
         elif op == "broker_error":
             if self.dead:
